@@ -30,7 +30,7 @@ RULE = ('random build programs: 1-4 qubits, 2-9 commands per circuit, measuremen
         'they are added to, or of the outermost circuit) interleaved with Wait / Rx180 / CPhase / Barrier; sub-circuits built as their own '
         'DeclarativeCircuit (repetition 1-3) nested with add() up to two levels; outer repetition 1-3; 25% of programs with explicit relations; '
         '50% read all indices before apply_modifiers(), 15% also list a sub-circuit before nesting it; 8% malformed (a measurement attached to an '
-        'unrelated circuit).  All indices are read after apply_modifiers().  non-trivial: well-formed, >= 3 listed measurements and (>= 2 measured '
+        'unrelated circuit); plus a few repetition-code library circuits.  All indices are read after apply_modifiers().  non-trivial: well-formed, >= 3 listed measurements and (>= 2 measured '
         'qubits interleaved, or a repeated tag, or a nested / unrolled block); distinct by hash of the program')
 LEVEL_TEXT = ('Coq theorems over all listings with pairwise distinct identifiers: the two-counter scan returns (number of same-qubit measurements '
               'before, number of measurements before); circuit-level indices are exactly 0..N-1 and per-qubit indices 0..n_q-1 in listing order; '
@@ -38,10 +38,11 @@ LEVEL_TEXT = ('Coq theorems over all listings with pairwise distinct identifiers
               'indices; circuit-level index = record position; unknown identifier -> (-1,-1); index increases with start time when same-qubit '
               'measurements are listed in start-time order (partial: that hypothesis is C01/C02\'s). Randomised correspondence evaluated by vm_compute.')
 LEVEL_NOTE = ('The scan is a hand-written model tied by correspondence; listing order, schedule and registry attachment are read from the '
-              'implementation. Known finding F12: a registry re-targeted to a value-equal sub-circuit yields -1 after a circuit was listed before being copied.')
+              'implementation. Known findings: F12 (a registry re-targeted to a value-equal sub-circuit yields -1 after a circuit was listed before being copied), '
+              'F13/F14 (listing order of same-qubit measurements is not their start-time order with sub-circuits / unrolled repetitions).')
 TECHNIQUE = 'Coq proof over a hand-written model of the scan + randomised correspondence evaluated by vm_compute'
 
-TAGS = ['', 'a', 'b', 'heralded', 'final']
+TAGS = ['', 'a', 'b', 'heralded', 'final', 'parity']     # generated programs use the first five; 'parity' comes from the library
 RELS = ['F', 'S', 'E']
 MAX_MEAS = 48
 KNOWN_SUBSEQ = ('implicitly sequenced overlap-free program without repetition that contains a sub-circuit: same-qubit measurements '
@@ -101,8 +102,12 @@ def max_rep(circ):
     return max(c.get('rep', 1) for c in all_circs(circ))
 
 
+def is_lib(case):
+    return case.get('k') == 'lib'
+
+
 def wellformed(case):
-    return not any(c['op'] == 'M' and c.get('reg') == 'unrelated' for c in all_cmds(case['circ']))
+    return is_lib(case) or not any(c['op'] == 'M' and c.get('reg') == 'unrelated' for c in all_cmds(case['circ']))
 
 
 # ----------------------------------------------------------------------------------------- generators
@@ -160,8 +165,14 @@ def gen_case(rng):
 
 
 def gen_cases(rng, tier):
-    n = 360 if tier == 'quick' else 5000
-    return [gen_case(rng) for _ in range(n)]
+    n = 500 if tier == 'quick' else 5000
+    cases = [gen_case(rng) for _ in range(n)]
+    # library-built circuits (repetition code): the start-time clause is claimed for them as well
+    libs = [([0, 1], 1), ([0, 1, 0], 3), ([1, 0, 1], 2), ([0, 1, 0], 0)] if tier == 'quick' else \
+        [(list(i), c) for i in ([0], [0, 1], [1, 0], [0, 1, 0], [1, 1, 0, 1]) for c in (0, 1, 2, 3, 5)]
+    for j, (init, cyc) in enumerate(libs):
+        cases.append({'k': 'lib', 'init': init, 'cycles': cyc, 'observe_before': j % 2 == 1})
+    return cases
 
 
 def corpus():
@@ -214,11 +225,14 @@ def to_coq(c, o):
     if 'error' in o or 'after' not in o:
         return "CError"
     before = f"(Some {c_obs(o['before'])})" if 'before' in o else "None"
-    return f"(CProg {cbool(wellformed(c))} {cbool(not has_rel(c['circ']))} {before} {c_obs(o['after'])})"
+    timed = is_lib(c) or not has_rel(c['circ'])      # library-built, or implicitly sequenced: the start-time clause applies
+    return f"(CProg {cbool(wellformed(c))} {cbool(timed)} {before} {c_obs(o['after'])})"
 
 
 # ----------------------------------------------------------------------------------------- metadata
 def kind(c):
+    if is_lib(c):
+        return 'library' + ('+listed-first' if c.get('observe_before') else '')
     circ = c['circ']
     if not wellformed(c):
         k = 'malformed'
@@ -242,7 +256,7 @@ def nontrivial(c, o):
     qs = [m['q'] for m in ms]
     interleaved = any(qs[i] != qs[i + 1] for i in range(len(qs) - 1)) and len(set(qs)) >= 2 and len(qs) > len(set(qs))
     keys = [(m['q'], m['tag']) for m in ms]
-    return interleaved or len(set(keys)) < len(keys) or depth(c['circ']) > 0 or max_rep(c['circ']) > 1
+    return interleaved or len(set(keys)) < len(keys) or is_lib(c) or depth(c['circ']) > 0 or max_rep(c['circ']) > 1
 
 
 def sample(c, o):
@@ -350,7 +364,7 @@ def time_inverted(a):
 
 
 def known_class(c, o):
-    if 'error' in o or 'after' not in o or not wellformed(c):
+    if 'error' in o or 'after' not in o or not wellformed(c) or is_lib(c):
         return None
     a = o['after']
     if any(m['qi'] < 0 or m['ci'] < 0 for m in a['meas']):
@@ -392,6 +406,8 @@ def _fix_rels(circ, removed):
 
 def shrink_candidates(case):
     out = []
+    if is_lib(case):
+        return out
     if case.get('observe_before'):
         c = copy.deepcopy(case); c['observe_before'] = False; out.append(c)
     for path in _paths(case['circ']):
